@@ -316,4 +316,235 @@ theorem finishBuild_spec (rxValid : Str → Res Bool) (natName : Nat → σ)
         simpa using this
   · cases h
 
+theorem isSome_fillRow (G : List σ) (qi : σ) (row : List (σ × Option Str)) (r : σ) :
+    (alookup r (fillRow G qi row)).isSome ↔ ((alookup r row).isSome ∨ (r ∈ G ∧ r ≠ qi)) := by
+  rw [alookup_fillRow]
+  by_cases h : (alookup r row).isSome
+  · simp [h]
+  · by_cases h2 : r ∈ G ∧ r ≠ qi
+    · simp [h, h2]
+    · simp [h, h2]
+
+theorem join_fillRow (G : List σ) (qi : σ) (row : List (σ × Option Str)) (r : σ) :
+    (alookup r (fillRow G qi row)).join = (alookup r row).join := by
+  rw [alookup_fillRow]
+  by_cases h : (alookup r row).isSome
+  · simp [h]
+  · have hn : alookup r row = none := by simpa using h
+    by_cases h2 : r ∈ G ∧ r ≠ qi
+    · simp [hn, h2]
+    · simp [hn, h2]
+
+/-- The language-labelled graph of the GNFA built from a source automaton with states `src`,
+edge languages `E`, initial state `init` and final states `finals`. -/
+def srcLb (src : List σ) (E : σ → σ → Language Char) (init : σ) (finals : List σ) (qi qf : σ) :
+    σ → σ → Language Char := fun p r =>
+  if p = qi then (if r = init then 1 else 0)
+  else if p ∈ src then (if r = qf then (if p ∈ finals then 1 else 0) else E p r)
+  else 0
+
+/-- `finishBuild` on rows that label the edge languages `E` of the source: the result has the
+documented shape and labels `srcLb`. -/
+theorem finishBuild_denotes (rxValid : Str → Res Bool) (natName : Nat → σ)
+    (hinj : Function.Injective natName) (src : List σ) (syms : List Char)
+    (rows : List (σ × List (σ × Option Str))) (init : σ) (finals : List σ)
+    (E : σ → σ → Language Char)
+    (hrows : ∀ p, (alookup p rows).isSome ↔ p ∈ src)
+    (htgt : ∀ p row, alookup p rows = some row → ∀ r, (alookup r row).isSome → r ∈ src)
+    (hE : ∀ p row, alookup p rows = some row → ∀ r, LabO (E p r) ((alookup r row).join))
+    (hinit : init ∈ src) (hfin : ∀ q ∈ finals, q ∈ src)
+    (g : GNFA σ Str) (h : finishBuild rxValid natName src syms rows init finals = .ok g) :
+    g.init ∉ src ∧ g.final ∉ src ∧ g.init ≠ g.final ∧
+    Shape (dedup g.states) g.init g.final g.trans ∧
+    Denotes Lab g.trans (srcLb src E init finals g.init g.final) := by
+  obtain ⟨qi, qf, hgi, hgf, hqi, hqf, hne, hst, hrow⟩ :=
+    finishBuild_spec rxValid natName hinj src syms rows init finals hrows hfin g h
+  subst hgi hgf
+  have memG : ∀ x, x ∈ g.states ↔ (x ∈ src ∨ x = g.init ∨ x = g.final) := by
+    intro x; rw [hst]; simp
+  refine ⟨hqi, hqf, hne, ?_, ?_⟩
+  · refine ⟨nodup_dedup _, by simp [memG], by simp [memG], hne, ?_, ?_⟩
+    · intro p
+      rw [hrow, mem_dedup, memG]
+      by_cases hp : p = g.init
+      · simp [hp, hne]
+      · rw [if_neg hp]
+        by_cases hps : p ∈ src
+        · rw [if_pos hps, Option.isSome_map]
+          have : p ≠ g.final := fun hc => hqf (hc ▸ hps)
+          simp [hps, this, (hrows p).mpr hps]
+        · rw [if_neg hps]
+          simp only [Option.isSome_none, Bool.false_eq_true, false_iff, not_and, not_not]
+          rintro (h1 | h1 | h1)
+          · exact absurd h1 hps
+          · exact absurd h1 hp
+          · exact h1
+    · intro p r
+      unfold get2
+      rw [hrow, mem_dedup, mem_dedup, memG, memG]
+      by_cases hp : p = g.init
+      · rw [if_pos hp]
+        simp only [Option.bind_some, isSome_fillRow, memG, alookup_cons, alookup_nil]
+        have hii : init ≠ g.init := fun hc => hqi (hc ▸ hinit)
+        by_cases hr : init = r
+        · subst hr; simp [hp, hne, hinit, hii]
+        · simp [hr, hp, hne]
+      · rw [if_neg hp]
+        by_cases hps : p ∈ src
+        · rw [if_pos hps]
+          obtain ⟨row, hrw⟩ := Option.isSome_iff_exists.mp ((hrows p).mpr hps)
+          have hpf : p ≠ g.final := fun hc => hqf (hc ▸ hps)
+          simp only [hrw, Option.map_some, Option.bind_some, isSome_fillRow, memG]
+          have key : ∀ row' : List (σ × Option Str),
+              (∀ r, (alookup r row').isSome → (r ∈ src ∨ r = g.final)) →
+              (((alookup r row').isSome ∨ ((r ∈ src ∨ r = g.init ∨ r = g.final) ∧ r ≠ g.init)) ↔
+                ((p ∈ src ∨ p = g.init ∨ p = g.final) ∧ p ≠ g.final ∧
+                  (r ∈ src ∨ r = g.init ∨ r = g.final) ∧ r ≠ g.init)) := by
+            intro row' hrow'
+            constructor
+            · rintro (h1 | h1)
+              · rcases hrow' r h1 with h2 | h2
+                · exact ⟨Or.inl hps, hpf, Or.inl h2, fun hc => hqi (hc ▸ h2)⟩
+                · exact ⟨Or.inl hps, hpf, Or.inr (Or.inr h2), fun hc => hne (hc.symm.trans h2)⟩
+              · exact ⟨Or.inl hps, hpf, h1.1, h1.2⟩
+            · rintro ⟨_, _, h3, h4⟩
+              exact Or.inr ⟨h3, h4⟩
+          apply key
+          intro r' hr'
+          by_cases hpfin : p ∈ finals
+          · rw [if_pos hpfin, alookup_ainsert] at hr'
+            by_cases hr'f : r' = g.final
+            · exact Or.inr hr'f
+            · rw [if_neg hr'f] at hr'; exact Or.inl (htgt p row hrw r' hr')
+          · rw [if_neg hpfin] at hr'; exact Or.inl (htgt p row hrw r' hr')
+        · rw [if_neg hps]
+          simp only [Option.bind_none, Option.isSome_none, Bool.false_eq_true, false_iff]
+          rintro ⟨h1 | h1 | h1, h2, _⟩
+          · exact hps h1
+          · exact hp h1
+          · exact h2 h1
+  · intro p r
+    unfold lab get2 srcLb
+    rw [hrow]
+    by_cases hp : p = g.init
+    · rw [if_pos hp, if_pos hp]
+      simp only [Option.bind_some, join_fillRow, alookup_cons, alookup_nil]
+      by_cases hr : init = r
+      · subst hr
+        simp only [if_true, Option.join_some]
+        exact Lab.nil_iff.mpr rfl
+      · have hr' : ¬ r = init := fun hc => hr hc.symm
+        simp only [hr, hr', if_false, Option.join_none]
+        rfl
+    · rw [if_neg hp, if_neg hp]
+      by_cases hps : p ∈ src
+      · rw [if_pos hps, if_pos hps]
+        obtain ⟨row, hrw⟩ := Option.isSome_iff_exists.mp ((hrows p).mpr hps)
+        simp only [hrw, Option.map_some, Option.bind_some, join_fillRow]
+        by_cases hrf : r = g.final
+        · rw [if_pos hrf]
+          by_cases hpfin : p ∈ finals
+          · rw [if_pos hpfin, if_pos hpfin, alookup_ainsert, if_pos hrf]
+            exact Lab.nil_iff.mpr rfl
+          · rw [if_neg hpfin, if_neg hpfin]
+            have : alookup r row = none := by
+              by_contra hc
+              have : (alookup r row).isSome := by
+                cases h' : alookup r row with
+                | none => exact absurd h' hc
+                | some _ => rfl
+              exact hqf (hrf ▸ htgt p row hrw r this)
+            rw [this]; rfl
+        · rw [if_neg hrf]
+          have : alookup r (if p ∈ finals then ainsert g.final (some []) row else row) =
+              alookup r row := by
+            by_cases hpfin : p ∈ finals
+            · rw [if_pos hpfin, alookup_ainsert, if_neg hrf]
+            · rw [if_neg hpfin]
+          rw [this]
+          have := hE p row hrw r
+          cases hj : (alookup r row).join <;> rw [hj] at this <;> exact this
+      · rw [if_neg hps, if_neg hps]; rfl
+
+/-- Paths of the built graph from the new initial to the new final state are the paths of the
+source graph from its initial state to one of its final states. -/
+theorem GLang_srcLb (src : List σ) (E : σ → σ → Language Char) (init : σ) (finals : List σ)
+    (qi qf : σ) (hqi : qi ∉ src) (hqf : qf ∉ src) (hne : qi ≠ qf)
+    (hEsrc : ∀ p r w, w ∈ E p r → r ∈ src) (hinit : init ∈ src) (w : List Char) :
+    w ∈ GLang (srcLb src E init finals qi qf) qi qf ↔ ∃ f ∈ finals, Walk E init f w := by
+  have hqf0 : ∀ r, srcLb src E init finals qi qf qf r = 0 := by
+    intro r; unfold srcLb; rw [if_neg (fun h => hne h.symm), if_neg hqf]
+  have fwd : ∀ p r w, Walk (srcLb src E init finals qi qf) p r w → r = qf → p ∈ src →
+      ∃ f ∈ finals, Walk E p f w := by
+    intro p r w hw
+    induction hw with
+    | nil p => intro h1 h2; exact absurd (h1 ▸ h2) hqf
+    | @cons p m r u v hu hrest ih =>
+      intro hr hp
+      have hpi : p ≠ qi := fun hc => hqi (hc ▸ hp)
+      unfold srcLb at hu
+      rw [if_neg hpi, if_pos hp] at hu
+      by_cases hm : m = qf
+      · rw [if_pos hm] at hu
+        by_cases hpf : p ∈ finals
+        · rw [if_pos hpf] at hu
+          have hu' : u = [] := (Language.mem_one u).mp hu
+          subst hm
+          cases hrest with
+          | nil => exact ⟨p, hpf, by subst hu'; exact Walk.nil p⟩
+          | cons hu2 _ => rw [hqf0] at hu2; exact absurd hu2 (by simp)
+        · rw [if_neg hpf] at hu; exact absurd hu (by simp)
+      · rw [if_neg hm] at hu
+        obtain ⟨f, hf, hwf⟩ := ih hr (hEsrc p m u hu)
+        exact ⟨f, hf, Walk.cons hu hwf⟩
+  have bwd : ∀ p f w, Walk E p f w → f ∈ finals → p ∈ src → f ∈ src →
+      Walk (srcLb src E init finals qi qf) p qf w := by
+    intro p f w hw
+    induction hw with
+    | nil p =>
+      intro hf hp _
+      have : ([] : List Char) ∈ srcLb src E init finals qi qf p qf := by
+        unfold srcLb
+        rw [if_neg (fun hc : p = qi => hqi (hc ▸ hp)), if_pos hp, if_pos rfl, if_pos hf]
+        exact (Language.mem_one _).mpr rfl
+      exact Walk.single this
+    | @cons p m r u v hu _ ih =>
+      intro hf hp hfs
+      have hm : m ∈ src := hEsrc p m u hu
+      have : u ∈ srcLb src E init finals qi qf p m := by
+        unfold srcLb
+        rw [if_neg (fun hc : p = qi => hqi (hc ▸ hp)), if_pos hp,
+          if_neg (fun hc : m = qf => hqf (hc ▸ hm))]
+        exact hu
+      exact Walk.cons this (ih hf hm hfs)
+  constructor
+  · intro hw
+    have hw : Walk (srcLb src E init finals qi qf) qi qf w := hw
+    cases hw with
+    | nil => exact absurd rfl hne
+    | @cons _ m _ u v hu hrest =>
+      unfold srcLb at hu
+      rw [if_pos rfl] at hu
+      by_cases hm : m = init
+      · rw [if_pos hm] at hu
+        have hu' : u = [] := (Language.mem_one u).mp hu
+        subst hu' hm
+        simpa using fwd _ _ _ hrest rfl hinit
+      · rw [if_neg hm] at hu; exact absurd hu (by simp)
+  · rintro ⟨f, hf, hw⟩
+    have hfs : f ∈ src := by
+      -- the end of a path from `init` is `init` or the target of an edge
+      have : ∀ p f w, Walk E p f w → p ∈ src → f ∈ src := by
+        intro p f w hw
+        induction hw with
+        | nil p => exact id
+        | cons hu _ ih => intro _; exact ih (hEsrc _ _ _ hu)
+      exact this _ _ _ hw hinit
+    have h1 := bwd _ _ _ hw hf hinit hfs
+    have h0 : ([] : List Char) ∈ srcLb src E init finals qi qf qi init := by
+      unfold srcLb; rw [if_pos rfl, if_pos rfl]; exact (Language.mem_one _).mpr rfl
+    have := Walk.cons h0 h1
+    simp only [List.nil_append] at this
+    exact this
+
 end AV.GNFA
